@@ -16,6 +16,8 @@ def enc_len(n: int, form: int | None = None) -> bytes:
             return bytes([n])
         b = n.to_bytes((n.bit_length() + 7) // 8, "big")
         return bytes([0x80 | len(b)]) + b
+    while n >= 256 ** form:          # the requested number of length octets cannot hold n: take the next one that can
+        form += 1
     b = n.to_bytes(form, "big")
     return bytes([0x80 | form]) + b
 
